@@ -2,7 +2,7 @@
    enclosures whose [true] is proved (Theory/CertT.v) to imply a statement about every point
    of a continuum. *)
 From Coq Require Import ZArith QArith Qabs List Bool.
-From PyqspV Require Import Base.Ops Base.IntervalZ Base.TrigZ Model.LPolyM Model.LAlgM Model.QInst Model.ConvM Model.ResponseM Model.SymQspM Model.PolyGenM.
+From PyqspV Require Import Base.Ops Base.IntervalZ Base.TrigZ Model.LPolyM Model.LAlgM Model.QInst Model.ConvM Model.ResponseM Model.SymQspM Model.PolyGenM Model.FPSearchM.
 Import ListNotations.
 
 Fixpoint qlist_eqb_exact (a b : list Q) : bool :=
@@ -322,3 +322,17 @@ Fixpoint all_close (a b : list Q) (tol : Q) : bool :=
 Definition scaled_close (b u : list Q) (s tol : Q) : bool := all_close b (scale OpsQ s u) tol.
 (* Chebyshev-basis output and monomial-basis output denote the same polynomial *)
 Definition same_poly_bases (cheb mono : list Q) (tol : Q) : bool := all_close (c2p_q false cheb) mono tol.
+
+(* ---- C18: fixed-point search.  Success probability |<0| R prod_k Z(phi_k) R |0>|^2 at overlap
+   lambda = a^2, enclosed by complex-interval evaluation of the reflection sequence *)
+Definition fps_layout_q (alpha : list Q) : list Q := fps_phivec (fun x => Qmult (-1 # 2) x) alpha.
+Definition fp_prob_encl (a : Q) (csl : list (I * I)) : I :=
+  let ai := iofQ a in
+  let si := isqrt (isub ione (imul ai ai)) in
+  let amp := fp_amplitude OpsCI ci_i (ciR ai) (ciR si) (map ci_cs csl) in
+  iadd (imul (fst amp) (fst amp)) (imul (snd amp) (snd amp)).
+(* per point (a, P): certified bound (scaled) of |prob(a^2) - P|, None if a is outside [0,1] *)
+Definition fp_prob_dists (phis : list Q) (pts : list (Q * Q)) : list (option Z) :=
+  let csl := map cos_sin_encl phis in
+  map (fun p => if Qleb 0 (fst p) && Qleb (fst p) 1
+                then Some (iabs_ub (isub (fp_prob_encl (fst p) csl) (iofQ (snd p)))) else None) pts.
